@@ -163,6 +163,11 @@ class Engine(GenericConcreteEngine[Callable[..., Any]]):
                         # and our caller would take that as a change.
                         return (transfer, done, messages)
                     return (transfer.reapply(upstream), done, messages)
+            case MarkerRelation():
+                # Some other (e.g. user-defined) marker: nothing is known
+                # about what it means for its upstream tree, so nothing is
+                # inserted upstream of it.
+                return tree, False, (f"backtracking through {type(tree).__name__} markers is not implemented",)
         raise NotImplementedError(f"Unsupported relation type {tree} for engine {self}.")
 
     def execute(self, relation: Relation) -> RowIterable:
